@@ -108,7 +108,9 @@ func VerifH_C04_dies_in_handshake() {
 	var handed Socket
 	ps.On("connection", func(a ...any) { conn++; handed = a[0].(Socket) })
 	kind := verif.Choose(2)
+	hold := verif.Bool() // the transport of a failed session may take a while to finish closing
 	ps.onMade = func(f *fakeTransport) {
+		f.holdClose = hold
 		verif.Event("transport dies", func() {
 			if kind == 0 {
 				f.OnClose()
